@@ -336,7 +336,7 @@ func (x *protoExec) start() string {
 	return "ok"
 }
 
-const protoWatchdog = 3 * time.Second
+const protoWatchdog = 6 * time.Second
 
 // stopWithWatchdog calls the real Stop; a hang becomes the token HANG (goroutine dump in hang-N.txt).
 func (x *protoExec) stopWithWatchdog(before func()) string {
@@ -450,7 +450,7 @@ func (x *protoExec) stopAt(task, who, place string) string {
 			x.g.open()
 			return r
 		}
-		if !x.g.waitHeld(2 * time.Second) {
+		if !x.g.waitHeld(6 * time.Second) {
 			x.g.open()
 			r := x.stopWithWatchdog(nil)
 			if r == "stopped" {
@@ -479,7 +479,7 @@ func (x *protoExec) stopAt(task, who, place string) string {
 		for _, b := range blks {
 			e.wm.VerifOnBlockConnected(b.msg)
 		}
-		if !x.g.waitHeld(2 * time.Second) {
+		if !x.g.waitHeld(6 * time.Second) {
 			x.g.open()
 			r := x.stopWithWatchdog(nil)
 			if r == "stopped" {
@@ -532,7 +532,7 @@ func (x *protoExec) await() string {
 	if !x.started {
 		return "bad-op"
 	}
-	deadline := time.Now().Add(8 * time.Second)
+	deadline := time.Now().Add(40 * time.Second)
 	for {
 		s := x.e.Wallets()
 		if !strings.Contains(s, "importing") && !strings.Contains(s, "removing") {
@@ -550,10 +550,18 @@ func (x *protoExec) await() string {
 func genProto(g *Gen) {
 	type sc struct{ task, place string }
 	var scs []sc
+	// order: a history-based check stops at the first disagreement of a stream, so the placements whose
+	// outcome does not depend on the follower's random select come first
 	for _, t := range []string{"remove", "import"} {
-		scs = append(scs, sc{t, "now"}, sc{t, "handler:begin"}, sc{t, "worker:begin:1"}, sc{t, "worker:commit:1"}, sc{t, "blocks:3"})
+		scs = append(scs, sc{t, "now"})
+	}
+	for _, t := range []string{"remove", "import"} {
+		scs = append(scs, sc{t, "worker:begin:1"}, sc{t, "worker:commit:1"})
 	}
 	scs = append(scs, sc{"remove", "worker:begin:2"}, sc{"remove", "worker:commit:2"}, sc{"none", "now"}, sc{"none", "blocks:3"}, sc{"none", "handler:begin"})
+	for _, t := range []string{"remove", "import"} {
+		scs = append(scs, sc{t, "handler:begin"}, sc{t, "blocks:3"})
+	}
 	reps := g.Scale(2, 6)
 	// the placements whose outcome depends on the follower's select (quit vs sigSuspend) are repeated more often
 	for rep := 0; rep < reps; rep++ {
